@@ -30,8 +30,8 @@ Print Assumptions diff_trees_toocomplex_iff_skeleton_differs.
 
 (* for ALL topologies: 0 with a NULL diff iff nothing a diff can see differs.
    [top_same] is the topology-level comparison as the code does it; its
-   distances part is made explicit by dists_compare_exact below, its memory
-   attribute part is NOT equality (build_zero_iff_equal_refuted_memattr). *)
+   distances part is made explicit by dists_compare_exact below (a
+   heterogeneous matrix is never "same": build_zero_iff_equal_refuted_hetero). *)
 Theorem build_zero_iff_equal : forall A B,
   diff_build 0 A B = BRet 0 [] <-> erase (t_root A) = erase (t_root B) /\ t_infos A = t_infos B /\ top_same A B.
 Proof. exact build_zero_iff. Qed.
@@ -48,30 +48,24 @@ Theorem build_rc_iff_toocomplex_entry : forall A B rc d,
 Proof. exact build_rc. Qed.
 Print Assumptions build_rc_iff_toocomplex_entry.
 
-(* for ALL topologies on which the initiator loop stays in bounds: returns 1
-   exactly when they differ in something a diff cannot express *)
+(* for ALL topologies: returns 1 exactly when they differ in something a diff
+   cannot express (a name set on one side only included), 0 exactly otherwise *)
 Theorem build_toocomplex_iff_inexpressible : forall A B,
-  memattrs_cmp false (t_memattrs A) (t_memattrs B) <> None ->
   ((exists d, diff_build 0 A B = BRet 1 d) <-> ~ expressible A B) /\
   ((exists d, diff_build 0 A B = BRet 0 d) <-> expressible A B).
-Proof. exact build_toocomplex_iff. Qed.
+Proof. exact build_toocomplex_iff'. Qed.
 Print Assumptions build_toocomplex_iff_inexpressible.
+
+(* for ALL topologies: the initiator loop of the memory attribute comparison
+   stays in bounds (fix ac5e4b1; regression witness: memattr_regression) *)
+Theorem build_memattr_in_bounds : forall A B, diff_build 0 A B <> BOverread.
+Proof. exact build_never_overreads. Qed.
+Print Assumptions build_memattr_in_bounds.
 
 (* identical topologies holding a heterogeneous distances matrix: rc = 1 *)
 Theorem build_zero_iff_equal_refuted_hetero : exists T, diff_build 0 T T = BRet 1 [ETooComplex 0 0].
 Proof. exists het_T. exact hetero_witness. Qed.
 Print Assumptions build_zero_iff_equal_refuted_hetero.
-
-(* memory attribute values: extra initiators on the second side are never
-   compared (0 with an empty diff although the values differ); missing ones
-   are read past the end of the array *)
-Theorem build_zero_iff_equal_refuted_memattr :
-  exists A B, t_memattrs A <> t_memattrs B /\ diff_build 0 A B = BRet 0 [] /\ diff_build 0 B A = BOverread.
-Proof.
-  exists (ma_T ["i0=100"]), (ma_T ["i0=100"; "i1=200"]). destruct memattr_witness as [H1 H2].
-  split; [intros E; discriminate E|]. split; assumption.
-Qed.
-Print Assumptions build_zero_iff_equal_refuted_memattr.
 
 (* ---------------- hwloc_topology_diff_apply ---------------- *)
 
@@ -90,24 +84,14 @@ Theorem entry_preserves_hypotheses : forall rev e T T',
 Proof. exact step_preserves. Qed.
 Print Assumptions entry_preserves_hypotheses.
 
-(* "If the N-th entry cannot be applied, apply returns -N and the topology is
-   exactly as before the call": false for the code as it is, under H. *)
-Theorem apply_failure_rolls_back_refuted :
-  exists T d T', keys_unique T && vals_u64 T && info_names_nodup T = true /\ forallb entry_u64 d = true /\
-                 diff_apply 0 d T = ARet (-3) T' /\ T' <> T.
-Proof. exists rb_T, rb_d, (topo1 (Some "m") [("X", "b")]). destruct rollback_witness as [H1 H2].
-  split; [exact H2|]. split; [reflexivity|]. split; [exact H1|]. intros E. discriminate E. Qed.
-Print Assumptions apply_failure_rolls_back_refuted.
-
-(* with the cancel loop undoing last-to-first (patches/fix-C16-rollback-order.diff):
-   for ALL topologies under H, ALL lists and flags, a negative return leaves
-   the topology exactly as before the call.  [becomes apply_failure_rolls_back
-   once the fix is committed and diff_apply follows it] *)
-Theorem apply_failure_rolls_back_fixed : forall flags d T rc T',
+(* for ALL topologies under H, ALL lists and flags: a negative return leaves
+   the topology exactly as before the call (cancel loop undoing last to first,
+   fix 751402d; regression witness: rollback_regression) *)
+Theorem apply_failure_rolls_back : forall flags d T rc T',
   Hkeys T -> Hnames T -> Hu64 T -> forallb entry_u64 d = true ->
-  diff_apply_fixed flags d T = ARet rc T' -> (rc < 0)%Z -> T' = T.
-Proof. exact rollback_fixed. Qed.
-Print Assumptions apply_failure_rolls_back_fixed.
+  diff_apply flags d T = ARet rc T' -> (rc < 0)%Z -> T' = T.
+Proof. exact rollback. Qed.
+Print Assumptions apply_failure_rolls_back.
 
 (* APPLY_REVERSE walks the list first-to-last as well: a list that touches one
    attribute twice applies, and its reverse application fails on the result *)
@@ -116,22 +100,9 @@ Theorem reverse_restores_refuted :
                  diff_apply 0 d T = ARet 0 T' /\
                  diff_apply HWLOC_TOPOLOGY_DIFF_APPLY_REVERSE d T' = ARet (-1) T'.
 Proof.
-  exists rb_T, (firstn 2 rb_d), (topo1 (Some "m") [("X", "c")]). destruct reverse_witness as [H1 H2].
-  split; [reflexivity|]. split; assumption.
+  exists rb_T, (firstn 2 rb_d), (topo1 (Some "m") [("X", "c")]). exact reverse_witness.
 Qed.
 Print Assumptions reverse_restores_refuted.
-
-(* name set on one side only: build returns 0, and the diff it returns either
-   crashes apply (strdup(NULL)) or cannot be applied (-1) *)
-Theorem name_unset_refuted :
-  (exists A B d, diff_build 0 A B = BRet 0 d /\ diff_apply 0 d A = ACrash) /\
-  (exists A B d, diff_build 0 A B = BRet 0 d /\ diff_apply 0 d A = ARet (-1) A).
-Proof.
-  split.
-  - exists (topo1 (Some "m") []), (topo1 None []), [EAttr 0 0 (DName (Some "m") None)]. exact name_unset_witness_crash.
-  - exists (topo1 None []), (topo1 (Some "m") []), [EAttr 0 0 (DName None (Some "m"))]. exact name_unset_witness_fail.
-Qed.
-Print Assumptions name_unset_refuted.
 
 (* two infos with one name in an object, no (name, value) pair duplicated on
    either side: apply(A, build(A,B)) succeeds and is not B *)
@@ -153,11 +124,12 @@ Definition ex_d := [EAttr 1 0 (DInfo "X" "a" "b"); EAttr (-3) 1 (DSize 0 2000 (2
 
 (* a 2-package topology with NUMA nodes satisfies H; a 6-entry list touching a
    name, a size (wrapping total_memory), an object info twice and a topology
-   info fails at its 6th entry: the code as it is leaves X=b, the fixed one restores *)
+   info fails at its 6th entry and the topology is restored (the cancel loop
+   before fix 751402d left X=b) *)
 Example hypotheses_met :
   Hkeys ex_T /\ Hnames ex_T /\ Hu64 ex_T /\ forallb entry_u64 ex_d = true /\ tmem_consistent ex_T = true /\
-  (exists T', diff_apply 0 ex_d ex_T = ARet (-6) T' /\ T' <> ex_T) /\
-  diff_apply_fixed 0 ex_d ex_T = ARet (-6) ex_T.
+  (exists T', diff_apply_forward_cancel 0 ex_d ex_T = ARet (-6) T' /\ T' <> ex_T) /\
+  diff_apply 0 ex_d ex_T = ARet (-6) ex_T.
 Proof.
   split; [apply keys_unique_Hkeys; vm_compute; reflexivity|].
   split; [apply info_names_nodup_Hnames; vm_compute; reflexivity|].
